@@ -9,11 +9,13 @@ oracle:          the injected fault: a diagnostic of the expected code must exis
                  with the *injected* texts substituted, attributed to the input path; switching class X on vs off must
                  change nothing but the diagnostics of class X (and never the exit status)
 """
-import json, os, time
+import json, os, re, time
 from vlib import build as B, lean as L, express_front as X, schema_gen_express as G
 
 HERE = os.path.dirname(os.path.abspath(__file__))
 VERIF = os.path.dirname(HERE)
+CYCLE_QUOTES = {"SUBSUPER_LOOP": r"Entity (\w+) is a subtype of itself$", "SELECT_LOOP": r"Select type (\w+) selects itself$",
+                "SUBSUPER_CONTINUATION": r"\s*\(via supertype entity (\w+)\)$", "SELECT_CONTINUATION": r"\s*\(via select type (\w+)\)$"}
 CYCLE_CODES = {"SUBSUPER_LOOP", "SELECT_LOOP", "SUBSUPER_CONTINUATION", "SELECT_CONTINUATION"}
 EXTRACTORS = ["liberrors", "resolvegen"]
 
@@ -86,6 +88,20 @@ def check_case_oracle(case, sw, ob, table, baseline=None, base_ob=None):
         if f is not None and f not in known_files:
             return (f"file:{code}", f"{code} is attributed to file {f!r}, the files of this run are {sorted(known_files)}")
     want_file = getattr(case, "expect_file", None) or path
+    # a cycle message is attributed to the line of the declaration it quotes
+    if case.proto and not getattr(case, "fixed_lines", False) and not getattr(case, "extra", {}):
+        decl = {}
+        for l in case.proto:
+            w = l.split()
+            if w[0] in ("entity", "type") and len(w) >= 3 and w[2].isdigit():
+                decl.setdefault(w[1], int(w[2]))
+        for (code, f, line, msg, is_err) in ob["diags"]:
+            rx = CYCLE_QUOTES.get(code)
+            m = re.match(rx, msg) if rx else None
+            if m and m.group(1) in decl and line is not None and decl[m.group(1)] != line:
+                other = next((n for n, dl in decl.items() if dl == line), "?")
+                return (f"cycle-line:{code}", f"{code} {msg!r} is attributed to line {line}, where {other} is declared; "
+                                              f"{m.group(1)} is declared on line {decl[m.group(1)]}")
     enabled_warnings = bool(sw)          # without -w/-i every warning is switched off
     for code, args in case.expect:
         if table.is_warning(code):
@@ -164,7 +180,12 @@ def run_cases(ctx, b, model, table, cases, sets_of, label):
             m = X.parse_run_reply(replies[ci][1 + j], table)
             drop = X.ORDER_DEPENDENT | ({"OVERLOADED_ATTR", "UNKNOWN_ATTR_IN_ENTITY"} if c.cls == "subtype-cycle" else set())
             wl = not getattr(c, "fixed_lines", False)
-            a, bb = X.canon(ob["diags"], with_lines=wl, drop=drop), X.canon(m["diags"], with_lines=wl, drop=drop)
+            real_d, n_ws = X.split_wrong_scope(c, ob["diags"])
+            if n_ws:
+                ctx.hist("observations", "type WHERE rule resolved in an importing schema's scope (C04 finding)")
+                if not [d for d in real_d if d[4]] and m["status"] == "0":
+                    continue
+            a, bb = X.canon(real_d, with_lines=wl, drop=drop), X.canon(m["diags"], with_lines=wl, drop=drop)
             st_ok = ob["status"] == m["status"] or (c.cls == "subtype-cycle" and ob["status"] == "signal11") or \
                 (m.get("diverges") == "1" and (ob["status"] == "abort" or ob["status"].startswith("signal")))
             if ob["status"] == "signal11":
@@ -191,6 +212,8 @@ def report_violation(ctx, b, table, case, sw, ob, v):
     code = key.split(":", 1)[1] if key.startswith("arg:") else None
     if code in MINIMAL:
         for mdata, margs in MINIMAL[code]:
+            if code == "DUPLICATE_DECL":        # the stored line is 0-based
+                margs = [margs[0], str(int(margs[1]) + X.LINE_BASE)]
             mc = X.Case("min", mdata, [], case.cls, [(code, margs)], "reject")
             r = X.run_tool(b, "check-express", mc, sw, ctx.work)
             mob = observed(r, table)
@@ -310,6 +333,16 @@ def run(ctx):
         sets_cache[c.name] = all_sw
     streams.append(("class-sweep", sweep))
     streams.append(("generated", X.gen_cases(ctx.rng, 12 if quick else 120, 6)))
+    # identifiers (and a file name) long enough that a whole message does not fit 200 / 256 / 1024-byte buffers: the quoted text
+    # must be the WHOLE offending identifier
+    lens = [70, 130, 170, 230]
+    longc = X.gen_cases(ctx.rng, 4 if quick else 16, 4, lexical=False, tag="long",
+                        pre=lambda i: "l" + "o" * lens[i % len(lens)] + "ng_")
+    for k, c in enumerate(longc):
+        if k % 5 == 0:
+            c.name = c.name + "_" + "p" * 150
+            c.proto = ["file " + c.path().encode().hex()] + c.proto[1:]
+    streams.append(("long-identifiers", longc))
     streams.append(("multi-schema", X.gen_file_cases(ctx.rng, 6 if quick else 60)))
     streams.append(("multi-file", X.gen_multifile_cases(ctx.rng, 5 if quick else 50)))
     graphs = []
